@@ -124,10 +124,11 @@ ExpandScript(s) == FlattenSeq([i \in 1..Len(s) |-> IF s[i][1] = "lib" THEN LibOp
 ExpandChain(c)  == [i \in 1..Len(c) |-> ExpandScript(c[i])]
 
 -----------------------------------------------------------------------------
+None == << <<"nohandler">> >>      \* no OnError / OnPanic handler installed (distinct from the empty script)
 (* IDEAL machine: st = [started, ab, pan, log, w, wops, errs] *)
 St0 == [started |-> 0, ab |-> FALSE, pan |-> FALSE, log |-> <<>>, w |-> W0, wops |-> <<>>, errs |-> 0]
 
-RECURSIVE IRunNext(_, _), IRunHandler(_, _, _, _)
+RECURSIVE IRunNext(_, _), IRunHandler(_, _, _, _), RunExtra(_, _)
 IRunNext(chain, st) ==
   IF st.pan \/ st.ab \/ st.started >= Len(chain) THEN st
   ELSE IRunNext(chain, IRunHandler(chain, [st EXCEPT !.started = @ + 1], st.started + 1, 1))
@@ -140,8 +141,14 @@ IRunHandler(chain, st, h, pc) ==
          [] op[1] = "redispatch" ->
               \* Context.Reset clears cursor, abort mark and errors but NOT the writer; the nested dispatch ends with its own
               \* end-of-dispatch commit; the cursor it leaves behind ends the outer loop (or carries an abort mark)
-              LET r == IRunNext(chain, [st EXCEPT !.started = op[2], !.ab = FALSE, !.errs = 0]) IN
-              IRunHandler(chain, IF r.pan THEN r ELSE [r EXCEPT !.w = WEnsure(@), !.wops = Append(@, <<"commit">>)], h, pc + 1)
+              \* op[3] (optional): the OnPanic hook of the router that dispatches (HandleContext has its own recover): a panic
+              \* in the nested chain is handled THERE - hook, commit - and the calling handler goes on as if nothing happened
+              LET r  == IRunNext(chain, [st EXCEPT !.started = op[2], !.ab = FALSE, !.errs = 0])
+                  hk == IF Len(op) >= 3 THEN op[3] ELSE None
+                  \* (the cursor the aborted nested dispatch leaves behind is past the calling chain when the caller is its last
+                  \* handler - the instances keep to that case - so nothing more is started)
+                  rh == IF r.pan /\ hk # None THEN [RunExtra(r, hk) EXCEPT !.pan = FALSE, !.started = Len(chain)] ELSE r IN
+              IRunHandler(chain, IF rh.pan THEN rh ELSE [rh EXCEPT !.w = WEnsure(@), !.wops = Append(@, <<"commit">>)], h, pc + 1)
          [] op[1] = "catchnext" ->      \* a panic below is recovered here: status 500, this handler goes on; the handlers
                                         \* after the panicking one are still started by the enclosing loop
               LET r == IRunNext(chain, st) IN
@@ -173,7 +180,6 @@ RunExtra(st, script) == LET c2 == <<script>>
 
 \* the whole dispatch: chain, then OnError (if errors and a handler is installed), then the end-of-dispatch commit;
 \* with a panic: the hook (if installed) and then the commit, otherwise the panic escapes and nothing is committed
-None == << <<"nohandler">> >>      \* no OnError / OnPanic handler installed (distinct from the empty script)
 IdealDispatch(chain, onerror, hook) ==
   LET r1 == IRunNext(chain, St0)
       r2 == IF ~r1.pan /\ r1.errs > 0 /\ onerror # None THEN RunExtra(r1, onerror) ELSE r1
